@@ -14,7 +14,7 @@ impl Monitor for C20 {
         "C20"
     }
     fn gens(&self, tier: Tier) -> Vec<Gen> {
-        vec![gen("histories", tier.pick(2_000, 200_000, 4)), gen("malformed", tier.pick(400, 40_000, 2))]
+        vec![gen("histories", tier.pick(2_000, 1_000_000, 4)), gen("malformed", tier.pick(400, 200_000, 2))]
     }
     fn rule(&self) -> String {
         "histories: a device runs a history of 4-12 transactions (MAC downlinks filling the pending answers to 0..15 bytes, confirmed downlinks, silent uplinks, rejected frames, Class C downlinks) from chosen counters (0, 0xFFFF, 0x10000, 2^32-2, None) and ADR counters (0, 63, 64, 95, 96); after EVERY step the session is serialised with serde_json, deserialised, re-serialised (must be identical text) and installed in a second device (nb: set_session in place and fresh device; async: new_with_session) which then runs the rest of the history plus a tail of 3 uplinks and a batch of fresh/replayed/stale downlinks in lock-step with the original: uplink bytes, responses, delivered payloads and the serialised session after every step must be identical. malformed: structural mutations of a valid document (drop/duplicate/rename field, wrong type, short/long arrays, pending_len 0..255, numbers at the u8/u16/u32 limits +-1, nesting, truncation at every byte): from_str must fail or yield a session on which a fixed operation battery never unwinds. Class = (session-state class at snapshot, mutation class, verdict).".into()
